@@ -19,6 +19,9 @@ RunViol(g) ==
     \cup (IF g \notin o.called THEN {"C17.unknown_getter_invoked"} ELSE {})
     \cup (IF g \in o.afterClose THEN {"C17.getter_added_after_close_was_invoked"} ELSE {})
 RunEff(g) == [o EXCEPT !.ran = @ \cup {g}, !.order = Append(@, g)]
+\* a getter that reports "nothing to write" (isNil): it is invoked like any other but appends nothing
+RunNilEff(g) == [o EXCEPT !.ran = @ \cup {g}]
+InOrder(g) == \E i \in DOMAIN o.order : o.order[i] = g
 CloseCallEff == [o EXCEPT !.closeCalled = TRUE, !.calledBeforeClose = o.called, !.returnedBeforeClose = o.returned]
 \* Close returns only after every getter added (Add returned) before it was called has been handled
 CloseRetViol == IF o.returnedBeforeClose \ o.ran # {} THEN {"C17.close_returned_before_an_earlier_getter_was_handled"} ELSE {}
@@ -31,6 +34,6 @@ QuiescentViol(blocked) ==
     \* one that overlaps Close may or may not have been accepted
     LET must == IF o.closeCalled THEN o.returnedBeforeClose ELSE o.called IN
     (IF must \ o.ran # {} THEN {"C17.getter_never_invoked"} ELSE {})
-    \cup (IF \E g \in must \cap o.ran : Pos(g) > o.flushedN THEN {"C17.data_appended_but_never_flushed"} ELSE {})
+    \cup (IF \E g \in must \cap o.ran : InOrder(g) /\ Pos(g) > o.flushedN THEN {"C17.data_appended_but_never_flushed"} ELSE {})
     \cup (IF blocked > 0 THEN {"C17.goroutine_blocked_for_ever"} ELSE {})
 =============================================================================
